@@ -194,8 +194,10 @@ def min_cost_flow(G: nx.DiGraph, s, t, demands_attr = 'l', capacities_attr = 'u'
 
     flowNetwork = nx.DiGraph()
 
-    flowNetwork.add_node(s, demand=-bigNumber)
-    flowNetwork.add_node(t, demand=bigNumber)
+    # The supply must dominate the value of a minimum flow; the sum of all lower bounds does
+    supply = max(bigNumber, sum(G[x][y][demands_attr] for x, y in G.edges()) + 1)
+    flowNetwork.add_node(s, demand=-supply)
+    flowNetwork.add_node(t, demand=supply)
 
     for v in G.nodes():
         if v != s and v != t:
